@@ -55,6 +55,21 @@ func pix(d *ImgDesc, rng []byte, x, y, c int) uint8 {
 	return rng[(y*d.W+x)*3+c]
 }
 
+// alphaAt: opacity of the logical pixel. Only the "holes" content is not opaque: blocks of fully transparent,
+// half transparent and opaque pixels (the luminance of a pixel is that of its alpha-premultiplied colour).
+func alphaAt(d *ImgDesc, x, y int) uint8 {
+	if d.Content != "holes" {
+		return 255
+	}
+	switch (x/8 + y/8 + int(d.Seed%3)) % 3 {
+	case 0:
+		return 0
+	case 1:
+		return 128
+	}
+	return 255
+}
+
 // BuildImage constructs the described image. The logical pixels depend only on (Content, Seed, W, H):
 // origin, padding and image type change the storage, not the picture.
 func BuildImage(d *ImgDesc) image.Image {
@@ -82,7 +97,7 @@ func BuildImage(d *ImgDesc) image.Image {
 			for x := full.Min.X; x < full.Max.X; x++ {
 				if (image.Point{x, y}).In(rect) {
 					lx, ly := x-d.OX, y-d.OY
-					img.Set(x, y, color.RGBA{pix(d, noise, lx, ly, 0), pix(d, noise, lx, ly, 1), pix(d, noise, lx, ly, 2), 255})
+					img.Set(x, y, color.NRGBA{pix(d, noise, lx, ly, 0), pix(d, noise, lx, ly, 1), pix(d, noise, lx, ly, 2), alphaAt(d, lx, ly)})
 				} else {
 					img.Set(x, y, color.RGBA{junk(), junk(), junk(), 255})
 				}
@@ -156,6 +171,11 @@ func RunHash(a *hashArgs) (string, error) {
 	case "NewPHash256Alt":
 		h, err := imagehash.NewPHash256Alt(img)
 		return fmt.Sprintf("%016x%016x%016x%016x", h[0], h[1], h[2], h[3]), err
+	case "EncodeBlurHashFast":
+		return imagehash.EncodeBlurHashFast(img)
+	case "NewAHash":
+		h, err := imagehash.NewAHash(img)
+		return fmt.Sprintf("%016x", uint64(h)), err
 	}
 	return "", fmt.Errorf("unknown hash function %q", a.Fn)
 }
@@ -225,6 +245,27 @@ func init() {
 			res["altered"] = alt
 		}
 		JSON(obs, res)
+	})
+	// sequence: run the listed sub-operations one after the other in THIS process; every result is reported
+	Register("sequence", func(op *core.Op, obs *core.Obs) {
+		var a struct {
+			Subs []core.Op `json:"subs"`
+		}
+		json.Unmarshal(op.Args, &a)
+		type out struct {
+			R   json.RawMessage `json:"r"`
+			Err string          `json:"err"`
+			Bad string          `json:"bad"`
+		}
+		results := make([]out, len(a.Subs))
+		for i := range a.Subs {
+			sub := a.Subs[i]
+			o := &core.Obs{}
+			h := registry[sub.Kind]
+			Guard(o, func() { h(&sub, o) })
+			results[i] = out{o.R, o.Err, o.Panic + o.Stall}
+		}
+		JSON(obs, results)
 	})
 	// concurrent: run the listed sub-operations on N goroutines at once; every result is reported
 	Register("concurrent", func(op *core.Op, obs *core.Obs) {
